@@ -66,6 +66,11 @@ func build(race bool) string {
 		out = filepath.Join(root, ".build", "harness.race.test")
 		args = []string{"test", "-c", "-race", "-tags", "verif", "-vet=off", "-o", out}
 	}
+	if ov := os.Getenv("VERIF_OVERLAY"); ov != "" {
+		// build against /repo with some files replaced (used to try deliberate breakages
+		// and candidate fixes without touching /repo)
+		args = append(args, "-overlay", ov)
+	}
 	args = append(args, "./checks")
 	os.MkdirAll(filepath.Join(root, ".build"), 0o755)
 	lk, err := os.OpenFile(filepath.Join(root, ".build", "lock"), os.O_CREATE|os.O_RDWR, 0o644)
